@@ -391,6 +391,11 @@ fn own_straight_forms(isa: &Isa, prop: &str) -> Vec<u8> {
     c
 }
 
+/// every register / immediate ALU form once (the straight-line building block other modules use)
+pub fn straight_code(isa: &Isa) -> Vec<u8> {
+    [alu_body(isa, 0), alu_body(isa, 1)].concat()
+}
+
 fn run_straight_or_idle(ctx: &mut Ctx, prop: &'static str, chunk: u64) {
     let isa = Isa::new();
     ctx.seq_owner = Some(prop);
